@@ -7,11 +7,14 @@
 package store
 
 import (
+	"encoding/json"
 	"errors"
 	"fmt"
 	"sort"
+	"strconv"
 	"strings"
 	"sync"
+	"unicode/utf8"
 
 	"github.com/c4pt0r/kvql"
 )
@@ -20,6 +23,41 @@ import (
 var ErrInjected = errors.New("verif: injected storage fault")
 
 type Pair struct{ K, V string }
+
+// A pair whose key or value is no valid UTF-8 travels through JSON (journal,
+// replay files) as bytes: JSON text would replace the invalid bytes.
+type pairWire struct {
+	K  string `json:"K"`
+	V  string `json:"V"`
+	KB []byte `json:"kb,omitempty"`
+	VB []byte `json:"vb,omitempty"`
+}
+
+func (p Pair) MarshalJSON() ([]byte, error) {
+	w := pairWire{K: p.K, V: p.V}
+	if !utf8.ValidString(p.K) {
+		w.K, w.KB = strconv.QuoteToASCII(p.K), []byte(p.K)
+	}
+	if !utf8.ValidString(p.V) {
+		w.V, w.VB = strconv.QuoteToASCII(p.V), []byte(p.V)
+	}
+	return json.Marshal(w)
+}
+
+func (p *Pair) UnmarshalJSON(b []byte) error {
+	var w pairWire
+	if err := json.Unmarshal(b, &w); err != nil {
+		return err
+	}
+	p.K, p.V = w.K, w.V
+	if w.KB != nil {
+		p.K = string(w.KB)
+	}
+	if w.VB != nil {
+		p.V = string(w.VB)
+	}
+	return nil
+}
 
 type Op struct {
 	Kind string   // Cursor Seek Next Get Put BatchPut Delete BatchDelete
@@ -69,7 +107,11 @@ type MemStore struct {
 	// FaultAt >= 0: the FaultAt-th storage/cursor call (0-based, counting every
 	// method of Storage and Cursor) returns ErrInjected.
 	FaultAt int
-	calls   int
+	// FaultWithData: the failing Get / Next returns, next to the error, what it
+	// had read (a key whose value could not be fetched, a value read before the
+	// error was noticed): an error is an error whatever comes with it
+	FaultWithData bool
+	calls         int
 	// Yield, when set, is called before every storage/cursor operation.
 	Yield func(op string)
 	// NoLog disables the call log (used by the free-running race pass, where
@@ -206,6 +248,9 @@ func (s *MemStore) log(o Op) {
 func (s *MemStore) Get(key []byte) ([]byte, error) {
 	if s.step("Get") {
 		s.log(Op{Kind: "Get", Args: []string{string(key)}, Err: true})
+		if v, ok := s.vals[string(key)]; ok && s.FaultWithData {
+			return spare(v), ErrInjected
+		}
 		return nil, ErrInjected
 	}
 	v, ok := s.vals[string(key)]
@@ -332,6 +377,9 @@ func (c *cursor) Seek(k []byte) error {
 func (c *cursor) Next() ([]byte, []byte, error) {
 	if c.s.step("Next") {
 		c.s.log(Op{Kind: "Next", Err: true})
+		if c.s.FaultWithData && c.idx < len(c.keys) {
+			return spare(c.keys[c.idx]), nil, ErrInjected
+		}
 		return nil, nil, ErrInjected
 	}
 	if c.idx >= len(c.keys) {
